@@ -1,5 +1,6 @@
 mod absval;
 mod calc;
+mod emit;
 mod registry;
 mod replay;
 
@@ -35,6 +36,27 @@ fn main() {
                 "mismatches": st.mismatches, "samples": st.samples,
             });
             println!("{}", out);
+        }
+        "emit" => {
+            // emit --type <key> --kind K --n N --m M --seed S --events E --out FILE
+            let key = arg(&args, "--type").expect("--type");
+            let sh = emit::Shape {
+                kind: arg(&args, "--kind").expect("--kind"),
+                n: arg(&args, "--n").and_then(|x| x.parse().ok()).unwrap_or(1),
+                m: arg(&args, "--m").and_then(|x| x.parse().ok()).unwrap_or(1),
+            };
+            let seed: u64 = arg(&args, "--seed").and_then(|x| x.parse().ok()).unwrap_or(1);
+            let events: usize = arg(&args, "--events").and_then(|x| x.parse().ok()).unwrap_or(1000);
+            let nr: usize = arg(&args, "--nr").and_then(|x| x.parse().ok()).unwrap_or(4);
+            let path = arg(&args, "--out").expect("--out");
+            let mut f = std::io::BufWriter::new(std::fs::File::create(&path).expect("create"));
+            match emit::emit(&key, &sh, seed, events, nr, &mut f) {
+                Some((e, t)) => println!("{}", json!({"type": key, "events": e, "tried": t, "file": path})),
+                None => {
+                    eprintln!("unknown type key {key}");
+                    std::process::exit(2);
+                }
+            }
         }
         "keysfor" => {
             // keysfor <json list of type descriptors> <json list of mantissas>
